@@ -79,7 +79,7 @@ def scale_scenario(ctx, job, oracles, name_prefix=''):
         if job.get('final'): job['final'](b, h, e)
         return h.ops
     name = '%sscale %d->%d shape=%s failover=%s' % (name_prefix, chunks_from, chunks_to, shape, with_failover)
-    res = ctx.explore(name, run, time_limit=job.get('time_limit') or (None if ctx.tier == 'quick' else 900), soft=True)
+    res = ctx.explore(name, run, time_limit=job.get('time_limit') or (None if ctx.tier == 'quick' else 300), soft=True)
     ctx.ops += sum(p.value or 0 for p in res if p.kind == 'ok')
     ctx.sample({'scenario': name, 'paths': len(res), 'path_condition_of_first': [str(c)[:160] for c in res[0].pc[:6]] if res else []})
 
@@ -96,7 +96,7 @@ def scale_jobs(ctx, quick_pairs=((1, 2), (2, 1)), thorough_pairs=((1, 2), (2, 1)
         shapes = owner_shapes(halves, maxt)
         if a >= 2: shapes = [s for s in shapes if len(s) <= halves + (1 if quick else 2)]
         base = list(range(halves))
-        cap = 6 if quick else 40
+        cap = 6 if quick else 12
         if len(shapes) > cap:
             rest = [s for s in shapes if s != base]
             shapes = [base] + rnd.sample(rest, cap - 1)
@@ -104,7 +104,7 @@ def scale_jobs(ctx, quick_pairs=((1, 2), (2, 1)), thorough_pairs=((1, 2), (2, 1)
             jobs.append({'from': a, 'to': bb, 'shape': sh, 'limits': limits, 'failover': None, 'recommit': True})
             if not quick or k < 2:
                 jobs.append({'from': a, 'to': bb, 'shape': sh, 'limits': limits, 'failover': 'nospare'})
-            if not quick and k < 8:
+            if not quick and k < 4:
                 jobs.append({'from': a, 'to': bb, 'shape': sh, 'limits': limits, 'failover': 'spare', 'clear': True})
     return jobs
 
